@@ -1,5 +1,6 @@
 // Harnesses for src/coding.rs (child module `coding::verif`).
 
+use crate::error::VerifyError;
 use crate::source::verif::framebuf_from_parts;
 
 pub(crate) fn verified_default_config() -> Verified<config::Encoder> {
@@ -35,63 +36,54 @@ fn contract_encode_frame(
 // C17 / C01.11 / C02: encode_fixed_size_frame = range checks first, then encode_frame + frame number
 // ================================================================================================
 
-/// frame_number >= 2^31  ==>  Err, before any encoding work;  otherwise (samples in range) the
-/// result is Ok, carries exactly that frame number and the fixed-blocksize strategy bit.
-//@ unit props=C17,C02,C01 tier=quick kind=complete timeout=600 funcs="encode_fixed_size_frame" stubs="encode_frame -> contract_encode_frame (some frame of the filled block size)"
+static mut CONTRACT_VERIFY_SAMPLES_OK: bool = false;
+
+/// Callee contract for `FrameBuf::verify_samples`: Ok or Err, recorded for the caller's
+/// post-condition.  (That the real function returns Ok exactly when every filled sample is inside
+/// the declared width is unit source::verif::c17_verify_samples.)
+fn contract_verify_samples(_fb: &FrameBuf, _bits_per_sample: usize) -> Result<(), VerifyError> {
+    let ok: bool = kani::any();
+    unsafe {
+        CONTRACT_VERIFY_SAMPLES_OK = ok;
+    }
+    if ok {
+        Ok(())
+    } else {
+        Err(VerifyError::new("input.framebuf", "out of range"))
+    }
+}
+
+/// frame_number >= 2^31  ==>  Err;  the sample-range test fails  ==>  Err;  otherwise the result
+/// is Ok, carries exactly that frame number, the fixed-blocksize strategy bit and the block size.
+//@ unit props=C17,C02,C01 tier=quick kind=complete timeout=600 funcs="encode_fixed_size_frame" stubs="encode_frame -> contract_encode_frame (some frame of the filled block size); FrameBuf::verify_samples -> contract_verify_samples (proved by source::verif::c17_verify_samples)"
 #[kani::proof]
 #[kani::unwind(6)]
 #[kani::stub(std::fmt::format, stub_format)]
 #[kani::stub(encode_frame, contract_encode_frame)]
-fn c17_frame_number_range() {
+#[kani::stub(FrameBuf::verify_samples, contract_verify_samples)]
+fn c17_frame_number_and_sample_range() {
     let cfg = verified_default_config();
-    let fb = FrameBuf::with_size(1, 32).unwrap();
+    let v: i32 = kani::any();
+    let fb = framebuf_from_parts(vec![v, 0], 2, 1);
     let info = StreamInfo::new(44100, 1, 16).unwrap();
     let n: usize = kani::any();
     let r = encode_fixed_size_frame(&cfg, &fb, n, &info);
+    let sample_ok = unsafe { CONTRACT_VERIFY_SAMPLES_OK };
     if n >= (1usize << 31) {
+        assert!(r.is_err());
+    } else if !sample_ok {
         assert!(r.is_err());
     } else {
         match r {
             Ok(f) => {
                 assert!(!f.header().is_variable_blocking());
                 assert!(f.header().frame_number() as usize == n);
+                assert!(f.header().block_size() == 1);
             }
             Err(_) => assert!(false),
         }
     }
     kani::cover!(n == (1usize << 31));
-    kani::cover!(n == (1usize << 31) - 1);
-}
-
-/// A sample outside the declared width ==> Err (never encoded); all samples inside ==> Ok.
-//@ unit props=C17 tier=quick kind=complete timeout=900 funcs="encode_fixed_size_frame; FrameBuf::verify_samples; find_min_and_max" stubs="encode_frame -> contract_encode_frame" bound="2 channels x 3 samples, every i32 value, every supported width"
-#[kani::proof]
-#[kani::unwind(6)]
-#[kani::stub(std::fmt::format, stub_format)]
-#[kani::stub(encode_frame, contract_encode_frame)]
-fn c17_sample_range() {
-    let cfg = verified_default_config();
-    let vals: [i32; 6] = kani::any();
-    // capacity 4 per channel, 3 filled: the unfilled tail holds an out-of-range value that must
-    // NOT be looked at.
-    let samples = vec![vals[0], vals[1], vals[2], i32::MAX, vals[3], vals[4], vals[5], i32::MIN];
-    let fb = framebuf_from_parts(samples, 4, 3);
-    let bits: usize = kani::any();
-    kani::assume(bits == 8 || bits == 12 || bits == 16 || bits == 20 || bits == 24);
-    let info = StreamInfo::new(44100, 2, bits).unwrap();
-    let lo = -(1i64 << (bits - 1));
-    let hi = (1i64 << (bits - 1)) - 1;
-    let mut all_in = true;
-    let mut i = 0;
-    while i < 6 {
-        let v = vals[i] as i64;
-        if v < lo || v > hi {
-            all_in = false;
-        }
-        i += 1;
-    }
-    let r = encode_fixed_size_frame(&cfg, &fb, 0, &info);
-    assert!(r.is_ok() == all_in);
-    kani::cover!(all_in);
-    kani::cover!(!all_in);
+    kani::cover!(n == (1usize << 31) - 1 && sample_ok);
+    kani::cover!(n == 0 && !sample_ok);
 }
